@@ -521,6 +521,7 @@ type Expr struct {
 	Name string
 	Args []*Expr
 	Vars []SpecParam // quantifier binders
+	Trig [][]*Expr   // explicit triggers: forall x T {t1, t2} {t3} :: body
 }
 
 type lexer struct {
@@ -620,10 +621,10 @@ func (p *parser) expr() *Expr {
 			p.l.next()
 			// optional type: anything up to ',' or '::'
 			tstart := p.l.pos - len(p.l.tok)
-			if p.l.tok != "," && p.l.tok != "::" {
+			if p.l.tok != "," && p.l.tok != "::" && p.l.tok != "{" {
 				// consume type tokens
 				depth := 0
-				for p.l.kind != "eof" && !(depth == 0 && (p.l.tok == "," || p.l.tok == "::")) {
+				for p.l.kind != "eof" && !(depth == 0 && (p.l.tok == "," || p.l.tok == "::" || p.l.tok == "{")) {
 					if p.l.tok == "[" {
 						depth++
 					}
@@ -641,9 +642,22 @@ func (p *parser) expr() *Expr {
 			}
 			break
 		}
+		var trig [][]*Expr
+		for p.accept("{") {
+			var group []*Expr
+			for {
+				group = append(group, p.expr())
+				if p.accept(",") {
+					continue
+				}
+				p.expect("}")
+				break
+			}
+			trig = append(trig, group)
+		}
 		p.expect("::")
 		body := p.expr()
-		return &Expr{Op: op, Vars: vars, Args: []*Expr{body}}
+		return &Expr{Op: op, Vars: vars, Args: []*Expr{body}, Trig: trig}
 	}
 	e := p.iff()
 	if p.accept("?") {
